@@ -23,7 +23,13 @@ OUT = os.environ.get("C2IMP_OUT") or os.path.join(V, "coq", "Gen", "Prog.v")
 WANTED = [("sbdfstring.c", "sbdf_convert_utf8_to_iso88591"), ("sbdfstring.c", "sbdf_convert_iso88591_to_utf8"),
           ("internals.c", "sbdf_read_7bitpacked_int32"), ("internals.c", "sbdf_write_7bitpacked_int32"),
           # the byte-order conversion under both build configurations (src/bswap.c keys on __sparc)
-          ("bswap.c", "sbdf_swap", [], "prog_sbdf_swap_le"), ("bswap.c", "sbdf_swap", ["-D__sparc"], "prog_sbdf_swap_be")]
+          ("bswap.c", "sbdf_swap", [], "prog_sbdf_swap_le"), ("bswap.c", "sbdf_swap", ["-D__sparc"], "prog_sbdf_swap_be"),
+          # the framing layer: single bytes, section markers, the file header, value type ids (these call each other)
+          ("internals.c", "sbdf_read_int8"), ("internals.c", "sbdf_write_int8"),
+          ("fileheader.c", "sbdf_sec_write"), ("fileheader.c", "sbdf_sec_read"), ("fileheader.c", "sbdf_sec_expect"),
+          ("fileheader.c", "sbdf_fh_write_cur"), ("fileheader.c", "sbdf_fh_read"),
+          ("valuetype.c", "sbdf_vt_write"), ("valuetype.c", "sbdf_vt_read")]
+CALLABLE = set(w[1] for w in WANTED if len(w) == 2)
 
 
 class Untranslatable(Exception):
@@ -31,6 +37,59 @@ class Untranslatable(Exception):
 
 
 OUTPARAMS = set()
+EXTRA_LOCALS = set()
+CELLPTR = ("int*", "sbdf_valuetype*")          # pointers to a single int cell (a value type is a struct with the one field id)
+
+
+def strip_casts(n):
+    n = unparen(n)
+    while n.get("kind") in ("ImplicitCastExpr", "CStyleCastExpr") and n.get("inner"):
+        n = unparen(n["inner"][0])
+    return n
+
+
+def callee_of(n):
+    """name of the function a CallExpr calls directly, or None"""
+    if n.get("kind") != "CallExpr": return None
+    c = strip_casts(n["inner"][0])
+    return c.get("referencedDecl", {}).get("name") if c.get("kind") == "DeclRefExpr" else None
+
+
+def call_stmt(ret, n, scope):
+    """SCall for a call of another translated function"""
+    g = callee_of(n)
+    if g not in CALLABLE: raise Untranslatable("call to " + str(g))
+    args = []; cells = []
+    for a in n["inner"][1:]:
+        u = strip_casts(a)
+        if u.get("kind") == "UnaryOperator" and u.get("opcode") == "&":
+            t = unparen(u["inner"][0])
+            if t.get("kind") == "MemberExpr" and t.get("name") == "id" and t.get("isArrow"):
+                b = strip_casts(t["inner"][0])
+                if b.get("kind") == "DeclRefExpr" and b.get("referencedDecl", {}).get("kind") == "ParmVarDecl" and qt(b).replace(" ", "") == "sbdf_valuetype*":
+                    nm = b["referencedDecl"]["name"]; OUTPARAMS.add("*" + nm); cells.append("*" + nm); args.append('(AFwd "%s")' % nm); continue
+            v = var_of(t, scope)
+            if v is None or qt(t) != "int": raise Untranslatable("address of something that is not an int local")
+            cells.append(v); args.append('(AAddr "%s")' % v); continue
+        if u.get("kind") == "DeclRefExpr" and u.get("referencedDecl", {}).get("kind") == "ParmVarDecl" and qt(u).replace(" ", "") in CELLPTR:
+            nm = u["referencedDecl"]["name"]; OUTPARAMS.add("*" + nm); cells.append("*" + nm); args.append('(AFwd "%s")' % nm); continue
+        e, f = expr(a, scope)
+        if f.w or f.io: raise Untranslatable("argument with side effects")
+        args.append("(AVal %s)" % e)
+    if len(set(cells)) != len(cells): raise Untranslatable("one cell passed twice")
+    if ret is not None and ret in cells: raise Untranslatable("result stored into a cell that is also passed")
+    return '(SCall %s "%s" [%s])' % ('(Some "%s")' % ret if ret else "None", g, "; ".join(args))
+
+
+def assign_call(n, scope):
+    """x = g(...) with x a local and g a translated function -> (x, call) or None"""
+    n = unparen(n)
+    if n.get("kind") == "BinaryOperator" and n.get("opcode") == "=":
+        v = var_of(n["inner"][0], scope)
+        c = strip_casts(n["inner"][1])
+        if v is not None and callee_of(c) in CALLABLE:
+            return v, c
+    return None
 
 
 def ast_of(path, cfg=()):
@@ -143,6 +202,14 @@ def expr(n, scope):
             if s.get("kind") == "UnaryOperator" and s.get("opcode") == "*":
                 p, f = expr(s["inner"][0], scope)
                 return "(EDeref %s)" % p, f
+            if s.get("kind") == "MemberExpr" and s.get("name") == "id":
+                b = strip_casts(s["inner"][0])
+                if b.get("kind") == "DeclRefExpr" and b.get("referencedDecl", {}).get("kind") == "ParmVarDecl":
+                    nm = b["referencedDecl"]["name"]; t = qt(b).replace(" ", "")
+                    if t == "sbdf_valuetype" and not s.get("isArrow"):
+                        f = Fx(); f.r.add(nm); return '(EVar "%s")' % nm, f
+                    if t == "sbdf_valuetype*" and s.get("isArrow"):
+                        OUTPARAMS.add("*" + nm); f = Fx(); f.r.add("*" + nm); return '(EVar "*%s")' % nm, f
             raise Untranslatable("rvalue of " + str(s.get("kind")))
         if ck == "IntegralCast":
             t = qt(n)
@@ -183,6 +250,12 @@ def expr(n, scope):
                 if v in f.w: raise Untranslatable("assignment to a variable its right side modifies")
                 f.w.add(v)
                 return '(EAssign "%s" %s)' % (v, e), f
+            if la.get("kind") == "MemberExpr" and la.get("name") == "id" and la.get("isArrow"):
+                b_ = strip_casts(la["inner"][0])
+                if b_.get("kind") == "DeclRefExpr" and b_.get("referencedDecl", {}).get("kind") == "ParmVarDecl" and qt(b_).replace(" ", "") == "sbdf_valuetype*":
+                    nm = "*" + b_["referencedDecl"]["name"]; OUTPARAMS.add(nm)
+                    e, f = expr(b, scope); f.w.add(nm)
+                    return '(EAssign "%s" %s)' % (nm, e), f
             if la.get("kind") == "UnaryOperator" and la.get("opcode") == "*" and qt(unparen(la["inner"][0])).replace(" ", "") == "int*":
                 pv = unparen(la["inner"][0])
                 while pv.get("kind") == "ImplicitCastExpr": pv = unparen(pv["inner"][0])
@@ -279,6 +352,12 @@ def stmt(n, scope, declared):
                 out.append('(SDecl "%s" None)' % nm)
             scope.add(nm)
         return seq(out)
+    if k == "IfStmt" and assign_call(n["inner"][0], scope):
+        inner = n["inner"]
+        v, c = assign_call(inner[0], scope)
+        a = stmt(inner[1], scope, declared)
+        b = stmt(inner[2], scope, declared) if len(inner) > 2 else "SSkip"
+        return '(SSeq %s (SIf (EVar "%s") %s %s))' % (call_stmt(v, c, scope), v, a, b)
     if k == "IfStmt":
         inner = n["inner"]
         c, _ = expr(inner[0], scope)
@@ -301,10 +380,27 @@ def stmt(n, scope, declared):
         return seq(parts)
     if k == "BreakStmt":
         return "SBreak"
+    if k == "ReturnStmt" and n.get("inner") and callee_of(strip_casts(n["inner"][0])) in CALLABLE:
+        EXTRA_LOCALS.add("$ret")
+        return '(SSeq %s (SReturn (EVar "$ret")))' % call_stmt("$ret", strip_casts(n["inner"][0]), scope)
     if k == "ReturnStmt":
         if not n.get("inner"): raise Untranslatable("return without a value")
         return "(SReturn %s)" % expr(n["inner"][0], scope)[0]
     # an expression statement
+    if assign_call(n, scope):
+        v, c = assign_call(n, scope)
+        return call_stmt(v, c, scope)
+    if k == "CallExpr" and callee_of(n) in CALLABLE:
+        return call_stmt(None, n, scope)
+    if k == "CallExpr" and callee_of(n) == "memset" and len(n["inner"]) == 4:
+        # memset(v, 0, sizeof(sbdf_valuetype)) on a value-type pointer parameter: the one field becomes 0
+        a0, a1, a2 = [strip_casts(x) for x in n["inner"][1:]]
+        if (a0.get("kind") == "DeclRefExpr" and a0.get("referencedDecl", {}).get("kind") == "ParmVarDecl" and qt(a0).replace(" ", "") == "sbdf_valuetype*"
+                and a1.get("kind") == "IntegerLiteral" and int(a1["value"]) == 0
+                and a2.get("kind") == "UnaryExprOrTypeTraitExpr" and a2.get("argType", {}).get("qualType") == "sbdf_valuetype"):
+            nm = a0["referencedDecl"]["name"]; OUTPARAMS.add("*" + nm)
+            return '(SExpr (EAssign "*%s" (EConst 0)))' % nm
+        raise Untranslatable("memset other than clearing a value type")
     e, _ = expr(n, scope)
     return "(SExpr %s)" % e
 
@@ -314,6 +410,7 @@ def main():
              "From Sbdf Require Import Imp.", "Local Open Scope Z_scope.", "Local Open Scope string_scope.", ""]
     cache = {}
     notes = []
+    translated = []
     for w in WANTED:
         fname, fn = w[0], w[1]
         cfg = tuple(w[2]) if len(w) > 2 else ()
@@ -330,21 +427,29 @@ def main():
             for c in decl["inner"]:
                 if c.get("kind") == "ParmVarDecl":
                     t = qt(c)
-                    if not (t in CTY or is_charptr(t) or t.replace(" ", "") in ("FILE*", "int*")): raise Untranslatable("parameter of type " + t)
+                    if not (t in CTY or is_charptr(t) or t.replace(" ", "") in ("FILE*", "int*", "sbdf_valuetype", "sbdf_valuetype*")): raise Untranslatable("parameter of type " + t)
                     params.append(c["name"])
             if len(set(params)) != len(params): raise Untranslatable("duplicate parameter names")
             body = [c for c in decl["inner"] if c.get("kind") == "CompoundStmt"][0]
             scope = set(params); declared = set(params)
-            OUTPARAMS.clear()
+            OUTPARAMS.clear(); EXTRA_LOCALS.clear()
             b = stmt(body, scope, declared)
             if "EDeref" in b and ("EReadByte" in b): raise Untranslatable("the input is used both as memory and as a stream")
-            locs = [x for x in sorted(declared) if x not in params] + sorted(OUTPARAMS)
+            locs = [x for x in sorted(declared) if x not in params] + sorted(EXTRA_LOCALS) + sorted(OUTPARAMS)
+            translated.append((fn, pname))
             lines.append("Definition %s : func :=\n  {| fparams := [%s];\n     flocals := [%s];\n     fbody := %s |}."
                          % (pname, "; ".join('"%s"' % p for p in params), "; ".join('"%s"' % p for p in locs), b))
             lines.append("")
         except Untranslatable as ex:
             notes.append("%s: %s" % (pname, ex))
             lines.append("(* %s could not be translated: %s *)" % (pname, ex)); lines.append("")
+    # the function table for calls between translated functions (by C name)
+    lines.append("Definition prog_env (g : string) : option func :=")
+    for fn, pname in translated:
+        if fn in CALLABLE and pname == "prog_" + fn:
+            lines.append('  if String.eqb g "%s" then Some %s else' % (fn, pname))
+    lines.append("  None.")
+    lines.append("")
     text = "\n".join(lines) + "\n"
     old = open(OUT).read() if os.path.exists(OUT) else None
     if old != text:
